@@ -6,6 +6,20 @@ TB = ('Trusted base: clang 14 front end (parser, Sema, constant evaluator, clang
       'the value-level remainder of the property (listed in the evidence under "NOT decided").')
 
 CLAIMED = {
+    'C02': {
+        'text': 'Clause-limited static decision (level "other"): (1) the material signature arithmetic is free of signed overflow over the '
+                'whole promotion-consistent material polytope (constant evaluation of the weights + type of every arithmetic node) - the '
+                'overflow the property names; (2) every PositionBase field is written only by known mutators, clearPiece == setPiece(EMPTY) '
+                'on removed-piece effects, white/black arms are colour mirrors, and the from-scratch builders reset every accumulator '
+                'before accumulating and write every field; (3) incremental and from-scratch hashing use the same key tables and index '
+                'shapes; (4) UndoInfo save-before-write and restore-on-every-path, move counters symmetric; (5) serialize/deSerialize '
+                'layouts inverse; (7) make/unmake pairing on every path at all 31 probe sites. Right level: "after any history the '
+                'incremental value equals the recomputed one" holds iff every mutator updates every derived attribute consistently - a '
+                'finite set of structural obligations that cover every history, where a random walk samples.',
+        'design_ref': 'DESIGN.md section 2, C02',
+        'note': TB + ' Does not decide value-level equalities (hash equality of rule-equal positions, FEN round trip of counters).',
+        'technique': 'custom static analysis: write-set/effect analysis, colour-mirror and sibling agreement on CFG regions, dominance-based save/restore and pairing, constant evaluation over the material polytope',
+    },
     'C05': {
         'text': 'Clause-limited static decision (level "other"): (1) null typestate of the lazily created engine object and of the '
                 'shared Search pointer for every command order (class-invariant induction over all methods); (2) no exception type '
